@@ -836,6 +836,7 @@ def compare(ref, classes, cat, dialect):
     tables = {_tkey(k, dialect): v for k, v in cat['tables'].items()}
     expected_tables = {}
     named_indexes, named_fks = [], []     # (table, cols, declared name, label)
+    required_fks = set()                  # (table, cols) of foreign keys that belong to Required / PrimaryKey references
     exp_fks = []          # (child table, cols, parent table, parent cols, declared cascade True/False/None, label, index opt)
 
     for root in ref.roots():
@@ -904,6 +905,10 @@ def compare(ref, classes, cat, dialect):
                 casc = r['opts'].get('cascade_delete') if r is not a else None
                 exp_fks.append((tname, tuple(located), table_of(a['type'][2:]), tuple(pk_cols(a['type'][2:])), casc, what,
                                 a['opts'].get('index')))
+                if a['cls'] in ('Required', 'PrimaryKey'):
+                    # wherever it is declared (root, subclass => nullable column, explicit nullable=True): the database must
+                    # never be told to blank out a reference the model requires
+                    required_fks.add((tname, tuple(located)))
             elif a is not None and a['opts'].get('index') and not a['opts'].get('unique'):
                 index_sets.append((tuple(located), what + ' index=%r' % (a['opts']['index'],)))
             if a is not None and a['opts'].get('unique'):
@@ -1040,6 +1045,9 @@ def compare(ref, classes, cat, dialect):
         if casc is False and fk['on_delete'] == 'CASCADE':
             out.append(('fk:on-delete', 'cascade_delete=False is declared for the reverse of %s but its foreign key says ON DELETE CASCADE'
                         % (what,)))
+        if (k[0], k[1]) in required_fks and fk['on_delete'] == 'SET NULL':
+            out.append(('fk:on-delete', '%s is a Required reference but its foreign key says ON DELETE SET NULL: deleting the '
+                        'referenced row would silently blank a required attribute instead of being refused or cascading' % (what,)))
 
     # -- explicit index= / fk_name= names of basic and to-one attributes are used as declared
     for (tname, cols, nm_, what) in named_indexes:
